@@ -6,241 +6,53 @@
 pub mod replies;
 
 #[cfg(kani)]
+#[path = "../../corpus/replies_h.rs"]
+pub mod replies_h;
+
+#[cfg(kani)]
 mod h {
     use crate::replies::rp::{sv, Rp};
-    use crate::replies::RpErr;
-    use support::call::{any_in, check_call, check_no_call, In};
-    use support::echo;
-    use support::env::one_char;
+    use crate::replies_h::*;
+    use support::call::{any_in, check_no_call};
     use support::stubs::{bt_disabled, fmt_stub};
-    use sylvia::cw_std::{Binary, Empty, Event, MsgResponse, Reply, Response, StdError, SubMsgResponse, SubMsgResult};
 
-    /// What must happen on a successful sub-message.
-    #[derive(Clone, Copy)]
-    pub enum OnOk {
-        /// success method without data parameter
-        Plain(u32),
-        /// success method with `#[sv::data(raw, opt)]`
-        DataOpt(u32),
-        /// success method with `#[sv::data(raw)]`
-        DataRaw(u32),
-        /// `always` method
-        Always(u32),
-        /// nobody covers success: events and data are passed through
-        Pass,
-    }
-    #[derive(Clone, Copy)]
-    pub enum OnErr {
-        Err(u32),
-        Always(u32),
-        /// nobody covers failure: the error is returned
-        Pass,
-    }
-
-    struct Rin {
-        gas: u64,
-        ok: bool,
-        has_ev: bool,
-        ev: [u8; 3],
-        has_mr: bool,
-        mr: [u8; 2],
-        has_data: bool,
-        d: u8,
-        pb: u8,
-        eb: u8,
-    }
-
-    fn any_rin() -> Rin {
-        let r = Rin {
-            gas: kani::any(),
-            ok: kani::any(),
-            has_ev: kani::any(),
-            ev: kani::any(),
-            has_mr: kani::any(),
-            mr: kani::any(),
-            has_data: kani::any(),
-            d: kani::any(),
-            pb: kani::any(),
-            eb: kani::any(),
-        };
-        kani::assume(r.ev[0] < 128 && r.ev[1] < 128 && r.ev[2] < 128 && r.mr[0] < 128 && r.eb < 128);
-        r
-    }
-
-    fn mk_reply(id: u64, r: &Rin) -> Reply {
-        let result = if r.ok {
-            let events = if r.has_ev {
-                vec![Event::new(one_char(r.ev[0])).add_attribute(one_char(r.ev[1]), one_char(r.ev[2]))]
-            } else {
-                Vec::new()
-            };
-            let msg_responses = if r.has_mr {
-                vec![MsgResponse {
-                    type_url: one_char(r.mr[0]),
-                    value: Binary::from(vec![r.mr[1]]),
-                }]
-            } else {
-                Vec::new()
-            };
-            SubMsgResult::Ok(SubMsgResponse {
-                events,
-                data: if r.has_data { Some(Binary::from(vec![r.d])) } else { None },
-                msg_responses,
-            })
-        } else {
-            SubMsgResult::Err(one_char(r.eb))
-        };
-        Reply {
-            id,
-            payload: Binary::from(vec![r.pb]),
-            gas_used: r.gas,
-            result,
-        }
-    }
-
-    /// Handler outcome reaches the caller untouched.
-    fn check_handler_outcome(i: &In, res: &Result<Response<Empty>, RpErr>) {
-        match res {
-            Ok(resp) => {
-                assert!(!i.ctl.fail);
-                let (has, d0, len) = echo::resp_data(resp);
-                assert!(has && len == 1 && d0 == i.ctl.data, "handler's response untouched");
-                assert!(resp.messages.is_empty() && resp.attributes.is_empty() && resp.events.is_empty());
-            }
-            Err(RpErr::Mine(c)) => assert!(i.ctl.fail && *c == i.ctl.code, "handler's error"),
-            Err(RpErr::Std(_)) => assert!(false, "no StdError expected when a handler ran"),
-        }
-    }
-
-    pub fn reply_case(id: u64, onok: OnOk, onerr: OnErr) {
-        let i = any_in();
-        let r = any_rin();
-        let mut w = i.world();
-        let msg = mk_reply(id, &r);
-        let res = sv::dispatch_reply(w.deps_mut(), i.env(), msg, Rp::new());
-        let pay = 256 + r.pb as u64;
-        let evs = (if r.has_ev { 16 } else { 0 }) + (if r.has_mr { 1 } else { 0 });
-        let dat = if r.has_data { 256 + r.d as u64 } else { 0 };
-        if r.ok {
-            match onok {
-                OnOk::Plain(h) => {
-                    check_call(&i, &w, h, [r.gas, evs, pay, 0], false, true);
-                    check_handler_outcome(&i, &res);
-                    kani::cover!(true, "success -> plain success method");
-                }
-                OnOk::DataOpt(h) => {
-                    let d = if r.has_data { 1000 + dat } else { 1 };
-                    check_call(&i, &w, h, [r.gas, evs, pay, d], false, true);
-                    check_handler_outcome(&i, &res);
-                    kani::cover!(r.has_data, "success -> method with optional raw data (present)");
-                    kani::cover!(!r.has_data, "success -> method with optional raw data (absent -> None)");
-                }
-                OnOk::DataRaw(h) => {
-                    if r.has_data {
-                        check_call(&i, &w, h, [r.gas, evs, pay, 1000 + dat], false, true);
-                        check_handler_outcome(&i, &res);
-                        kani::cover!(true, "success -> method with mandatory raw data (present)");
-                    } else {
-                        check_no_call(&w);
-                        assert!(res.is_err(), "missing mandatory data is an error, handler not invoked");
-                        kani::cover!(true, "success, data missing -> error");
-                    }
-                }
-                OnOk::Always(h) => {
-                    // always methods get the full result and an empty events / msg_responses context
-                    check_call(&i, &w, h, [r.gas, 0, pay, 3000 + dat], false, true);
-                    check_handler_outcome(&i, &res);
-                    kani::cover!(true, "success -> always method");
-                }
-                OnOk::Pass => {
-                    check_no_call(&w);
-                    match &res {
-                        Ok(resp) => {
-                            assert!(resp.events.len() == if r.has_ev { 1 } else { 0 }, "events passed through");
-                            if r.has_ev {
-                                let e = &resp.events[0];
-                                assert!(support::sym::str_eq(&e.ty, &one_char(r.ev[0])));
-                                assert!(e.attributes.len() == 1);
-                                assert!(support::sym::str_eq(&e.attributes[0].key, &one_char(r.ev[1])));
-                                assert!(support::sym::str_eq(&e.attributes[0].value, &one_char(r.ev[2])));
-                            }
-                            let (has, d0, len) = echo::resp_data(resp);
-                            assert!(has == r.has_data, "data presence passed through");
-                            if r.has_data {
-                                assert!(len == 1 && d0 == r.d, "data passed through");
-                            }
-                            assert!(resp.messages.is_empty() && resp.attributes.is_empty());
-                        }
-                        Err(_) => assert!(false, "uncovered success acts as if no reply had been requested"),
-                    }
-                    kani::cover!(r.has_ev && r.has_data, "success pass-through with event and data");
-                }
-            }
-        } else {
-            let err = 256 + r.eb as u64;
-            match onerr {
-                OnErr::Err(h) => {
-                    check_call(&i, &w, h, [r.gas, 0, pay, 2000 + err], false, true);
-                    check_handler_outcome(&i, &res);
-                    kani::cover!(true, "failure -> error method");
-                }
-                OnErr::Always(h) => {
-                    check_call(&i, &w, h, [r.gas, 0, pay, 4000 + err], false, true);
-                    check_handler_outcome(&i, &res);
-                    kani::cover!(true, "failure -> always method");
-                }
-                OnErr::Pass => {
-                    check_no_call(&w);
-                    match &res {
-                        Err(RpErr::Std(StdError::GenericErr { msg, .. })) => {
-                            assert!(support::sym::str_eq(msg, &one_char(r.eb)), "that error");
-                        }
-                        _ => assert!(false, "uncovered failure is answered with that error"),
-                    }
-                    kani::cover!(true, "failure pass-through");
-                }
-            }
-        }
-        core::mem::forget(res);
-    }
-
+    /// One harness per declared id (the id is then a constant for CBMC and the other arms are pruned);
+    /// together with `r_unknown_id` they cover every u64.
     macro_rules! case {
-        ($name:ident, $id:expr, $onok:expr, $onerr:expr) => {
+        ($name:ident, $k:literal, $id:expr) => {
             #[kani::proof]
             #[kani::unwind(6)]
             #[kani::stub(std::backtrace::Backtrace::capture, bt_disabled)]
             #[kani::stub(alloc::fmt::format, fmt_stub)]
             fn $name() {
-                reply_case($id, $onok, $onerr);
+                // the table is keyed by position in KNOWN; make sure position and constant agree
+                assert!(KNOWN[$k] == $id);
+                reply_case::<1, 1>($id, TABLE[$k].0, TABLE[$k].1);
             }
         };
     }
 
-    case!(r_on_succ, sv::ON_SUCC_REPLY_ID, OnOk::Plain(400), OnErr::Pass);
-    case!(r_on_err, sv::ON_ERR_REPLY_ID, OnOk::Pass, OnErr::Err(410));
-    case!(r_both, sv::BOTH_REPLY_ID, OnOk::DataOpt(420), OnErr::Err(421));
-    case!(r_rev, sv::REV_REPLY_ID, OnOk::Plain(431), OnErr::Err(430));
-    case!(r_alw, sv::ALW_REPLY_ID, OnOk::Always(440), OnErr::Always(440));
-    case!(r_h_a, sv::H_A_REPLY_ID, OnOk::Plain(450), OnErr::Pass);
-    case!(r_h_b, sv::H_B_REPLY_ID, OnOk::Plain(450), OnErr::Pass);
-    case!(r_raw_data, sv::RAW_DATA_REPLY_ID, OnOk::DataRaw(460), OnErr::Pass);
-    case!(r_raw_opt, sv::RAW_OPT_REPLY_ID, OnOk::DataOpt(470), OnErr::Pass);
+    case!(r_on_succ, 0, sv::ON_SUCC_REPLY_ID);
+    case!(r_on_err, 1, sv::ON_ERR_REPLY_ID);
+    case!(r_both, 2, sv::BOTH_REPLY_ID);
+    case!(r_rev, 3, sv::REV_REPLY_ID);
+    case!(r_alw, 4, sv::ALW_REPLY_ID);
+    case!(r_h_a, 5, sv::H_A_REPLY_ID);
+    case!(r_h_b, 6, sv::H_B_REPLY_ID);
+    case!(r_raw_data, 7, sv::RAW_DATA_REPLY_ID);
+    case!(r_raw_opt, 8, sv::RAW_OPT_REPLY_ID);
 
-    /// Any id that belongs to no handler name is an error and runs nothing.
+    /// Any id that belongs to no handler name is an error and runs nothing (id symbolic over u64).
     #[kani::proof]
     #[kani::unwind(6)]
     #[kani::stub(std::backtrace::Backtrace::capture, bt_disabled)]
     #[kani::stub(alloc::fmt::format, fmt_stub)]
     fn r_unknown_id() {
         let id: u64 = kani::any();
-        const KNOWN: [u64; 9] = [
-            sv::ON_SUCC_REPLY_ID, sv::ON_ERR_REPLY_ID, sv::BOTH_REPLY_ID, sv::REV_REPLY_ID, sv::ALW_REPLY_ID,
-            sv::H_A_REPLY_ID, sv::H_B_REPLY_ID, sv::RAW_DATA_REPLY_ID, sv::RAW_OPT_REPLY_ID,
-        ];
         kani::assume(id != KNOWN[0] && id != KNOWN[1] && id != KNOWN[2] && id != KNOWN[3] && id != KNOWN[4]);
         kani::assume(id != KNOWN[5] && id != KNOWN[6] && id != KNOWN[7] && id != KNOWN[8]);
         let i = any_in();
-        let r = any_rin();
+        let r = any_rin::<1, 1>();
         let mut w = i.world();
         let res = sv::dispatch_reply(w.deps_mut(), i.env(), mk_reply(id, &r), Rp::new());
         check_no_call(&w);
@@ -248,22 +60,6 @@ mod h {
         kani::cover!(r.ok, "unknown id, successful sub-message");
         kani::cover!(!r.ok, "unknown id, failed sub-message");
         core::mem::forget(res);
-    }
-
-    const KNOWN: [u64; 9] = [
-        sv::ON_SUCC_REPLY_ID, sv::ON_ERR_REPLY_ID, sv::BOTH_REPLY_ID, sv::REV_REPLY_ID, sv::ALW_REPLY_ID,
-        sv::H_A_REPLY_ID, sv::H_B_REPLY_ID, sv::RAW_DATA_REPLY_ID, sv::RAW_OPT_REPLY_ID,
-    ];
-    const fn max_known() -> u64 {
-        let mut m = 0;
-        let mut k = 0;
-        while k < 9 {
-            if KNOWN[k] > m {
-                m = KNOWN[k];
-            }
-            k += 1;
-        }
-        m
     }
 
     /// Cheap variants: one *concrete* unknown id each (just above the declared ones, 2^32,
@@ -277,7 +73,7 @@ mod h {
             fn $name() {
                 const ID: u64 = $id;
                 let i = any_in();
-                let r = any_rin();
+                let r = any_rin::<1, 1>();
                 let mut w = i.world();
                 let res = sv::dispatch_reply(w.deps_mut(), i.env(), mk_reply(ID, &r), Rp::new());
                 check_no_call(&w);
@@ -292,13 +88,9 @@ mod h {
     unknown_concrete!(r_unknown_2p32, 1 << 32);
     unknown_concrete!(r_unknown_max, u64::MAX);
 
-    /// Distinct handler names have distinct ids (concrete facts about the generated constants; C08).
+    /// Distinct handler names have distinct ids (facts about the generated constants; also C08).
     #[kani::proof]
     fn r_ids_distinct() {
-        const KNOWN: [u64; 9] = [
-            sv::ON_SUCC_REPLY_ID, sv::ON_ERR_REPLY_ID, sv::BOTH_REPLY_ID, sv::REV_REPLY_ID, sv::ALW_REPLY_ID,
-            sv::H_A_REPLY_ID, sv::H_B_REPLY_ID, sv::RAW_DATA_REPLY_ID, sv::RAW_OPT_REPLY_ID,
-        ];
         let a: usize = kani::any();
         let b: usize = kani::any();
         kani::assume(a < 9 && b < 9 && a != b);
